@@ -417,7 +417,8 @@ class ProtoSimulation:
         # ---- 1. prefix validity (C20) ------------------------------------
         viable, st = self.auto.run(hist)
         if not viable:
-            run.violation("C20", "invalid-prefix", "history-not-a-prefix", "interaction tree %s is not a prefix of any interaction of the spec\n%s" % (hist, self.text))
+            np_ = (":non-plain-grammar:" + self.p.meta["non_plain"][0]) if self.p.meta.get("non_plain") else ""
+            run.violation("C20", "invalid-prefix", "history-not-a-prefix" + np_, "interaction tree %s is not a prefix of any interaction of the spec\n%s" % (hist, self.text))
             return
         # ---- 2b. the history satisfies every constraint (C20: sends satisfy them, bad remote data is never accepted)
         msgs = history_tree.protocol_msgs()
@@ -475,21 +476,23 @@ class ProtoSimulation:
         if got != want:
             extra, missing = sorted(got - want), sorted(want - got)
             kind = "extra-option" if extra and not missing else ("missing-option" if missing and not extra else "options-differ")
-            cause = self._forecast_cause(history_tree, extra, missing)
-            if cause == "other" and missing and all(any(g[0] == m[0] and g[2] == m[2] and g[1] != m[1] for g in got) for m in missing):
-                # every missing option has a sibling with the same sender and type but another recipient:
-                # the forecast result is keyed by message symbol only, so the second recipient is lost
-                cause = "same-type-other-recipient"
-            if cause == "other" and P.has_adjacent_nullables(self.p):
-                cause = "adjacent-nullable-items"
-            if cause == "other" and P.reuses_types(self.p):
-                cause = "type-reused-same-sender-other-recipient"
+            cause = self._cause(history_tree, extra, missing, got)
             run.violation("C19", "forecast-differs", "%s:%s" % (kind, cause), "history=%s\nforecast offers %s\nthe grammar allows %s\nextra=%s missing=%s\n%s" % (hist, sorted(got), sorted(want), extra, missing, self.p.to_fan(with_parties=False)))
         if complete_got != complete_want:
-            run.violation("C19", "completeness-flag", "complete-flag-%s%s" % ("set-on-incomplete" if complete_got else "unset-on-complete", ":adjacent-nullable-items" if P.has_adjacent_nullables(self.p) else (":type-reused-same-sender-other-recipient" if P.reuses_types(self.p) else "")), "history=%s complete_trees=%d but the history %s a full interaction\n%s" % (hist, len(fr.complete_trees), "is" if complete_want else "is not", self.p.to_fan(with_parties=False)))
+            run.violation("C19", "completeness-flag", "complete-flag-%s%s" % ("set-on-incomplete" if complete_got else "unset-on-complete", (":non-plain-grammar:" + self.p.meta["non_plain"][0]) if self.p.meta.get("non_plain") else ""), "history=%s complete_trees=%d but the history %s a full interaction\n%s" % (hist, len(fr.complete_trees), "is" if complete_want else "is not", self.p.to_fan(with_parties=False)))
         whose = ("F" if any(k[0] in self.p.fuzzers for k in want) else "") + ("E" if any(k[0] in self.p.externals for k in want) else "")
         pend = len(self.io.receive)
         run.state((hash(st) & 0xFFFFFF, whose, min(pend, 3), s.fault[0] if s.fault else None))
+
+    def _cause(self, tree, extra, missing, got) -> str:
+        """The most specific cause the harness can establish for a forecast discrepancy."""
+        if missing and all(any(g[0] == m[0] and g[2] == m[2] and g[1] != m[1] for g in got) for m in missing):
+            # every missing option has a sibling with the same sender and type but another recipient:
+            # the forecast result is keyed by message symbol only, so the second recipient is lost
+            return "same-type-other-recipient"
+        if self.p.meta.get("non_plain"):
+            return "non-plain-grammar:" + self.p.meta["non_plain"][0]
+        return self._forecast_cause(tree, extra, missing)
 
     def _forecast_cause(self, tree, extra, missing) -> str:
         """Name the distinguishing cause where the harness can establish it."""
@@ -597,7 +600,8 @@ class ProtoSimulation:
         hist = self.tree_history(tree)
         viable, _st = self.auto.run(hist)
         if not viable:
-            run.violation("C20", "invalid-prefix", "yielded-history-not-a-prefix", "yielded interaction %s is not a prefix of any interaction of the spec\n%s" % (hist, self.text))
+            np_ = (":non-plain-grammar:" + self.p.meta["non_plain"][0]) if self.p.meta.get("non_plain") else ""
+            run.violation("C20", "invalid-prefix", "yielded-history-not-a-prefix" + np_, "yielded interaction %s is not a prefix of any interaction of the spec\n%s" % (hist, self.text))
         for m in tree.protocol_msgs():
             mt = m.msg.symbol.name()[1:-1]
             if mt in self.p.msg_types:
@@ -647,16 +651,10 @@ def forecast_walk(run: Run, sim: "ProtoSimulation", f) -> None:
         if got != want:
             extra, missing = sorted(got - want), sorted(want - got)
             kind = "extra-option" if extra and not missing else ("missing-option" if missing and not extra else "options-differ")
-            cause = sim._forecast_cause(tree, extra, missing)
-            if cause == "other" and missing and all(any(g[0] == m[0] and g[2] == m[2] and g[1] != m[1] for g in got) for m in missing):
-                cause = "same-type-other-recipient"
-            if cause == "other" and P.has_adjacent_nullables(sim.p):
-                cause = "adjacent-nullable-items"
-            if cause == "other" and P.reuses_types(sim.p):
-                cause = "type-reused-same-sender-other-recipient"
+            cause = sim._cause(tree, extra, missing, got)
             run.violation("C19", "forecast-differs", "%s:%s" % (kind, cause), "walk history=%s\nforecast offers %s\nthe grammar allows %s\nextra=%s missing=%s\n%s" % (hist, sorted(got), sorted(want), extra, missing, sim.p.to_fan(with_parties=False)))
         if complete_got != complete_want:
-            run.violation("C19", "completeness-flag", "complete-flag-%s%s" % ("set-on-incomplete" if complete_got else "unset-on-complete", ":adjacent-nullable-items" if P.has_adjacent_nullables(sim.p) else (":type-reused-same-sender-other-recipient" if P.reuses_types(sim.p) else "")), "walk history=%s complete_trees=%d but the history %s a full interaction\n%s" % (hist, len(fr.complete_trees), "is" if complete_want else "is not", sim.p.to_fan(with_parties=False)))
+            run.violation("C19", "completeness-flag", "complete-flag-%s%s" % ("set-on-incomplete" if complete_got else "unset-on-complete", (":non-plain-grammar:" + sim.p.meta["non_plain"][0]) if sim.p.meta.get("non_plain") else ""), "walk history=%s complete_trees=%d but the history %s a full interaction\n%s" % (hist, len(fr.complete_trees), "is" if complete_want else "is not", sim.p.to_fan(with_parties=False)))
         run.state((hash(st) & 0xFFFFFF, "walk", len(hist)))
         # continue along an option both sides agree on (so that the walk stays inside the language)
         both = sorted(got & want)
